@@ -73,10 +73,27 @@ def read_message_obligation(ctx, R, prover):
                        z3.Or(*[z3.And(e["guard"], e["ok"], e["bytes"].len == le, simp(e["bytes"].off) == 12, e["bytes"].arr == data) for e in decs]) if decs else z3.BoolVal(False))),
         "payload-is-only-decoded-through-Message::decode": z3.And(*[z3.Not(e["guard"]) for e in other_dec]) if other_dec else z3.BoolVal(True),
         "short-input-is-an-error": z3.Implies(z3.Or(N < 12, z3.And(hdr_ok, N < 12 + le)), z3.Not(ok)),
+        # completeness (the round-trip half of the property): a complete well-formed frame is rejected only because
+        # Message::decode rejected its payload -- however the reader delivers the bytes
+        "well-formed-frame-fails-only-if-decode-fails": z3.Implies(
+            z3.And(hdr_ok, N >= 12 + le), z3.Or(ok, *[z3.And(e["guard"], z3.Not(e["ok"])) for e in decs])),
     }
     covers = {"ok-reachable": ok, "oversize-rejected": z3.And(z3.Not(ok), le > MAXP, N >= 12)}
 
     def witness(name, model, neg):
+        if name.startswith("well-formed-frame"):
+            reads = sorted(((d.name(), model[d].as_long()) for d in model.decls() if d.name().startswith("short_read")),
+                           key=lambda kv: int(kv[0].split("!")[-1]) if "!" in kv[0] else 0)
+            fam = [[max(1, r) for _, r in reads] or [1], [1], [5], [11], [13], [8192]]
+            for chunks in fam:
+                case = {"fn": "codec_chunked_roundtrip", "chunks": chunks}
+                res_n = native.run_both(case)
+                bad = {p: r for p, r in res_n.items() if "panic" in r or "crash" in r or r.get("equal") is False}
+                if bad:
+                    case["observed"] = res_n
+                    return {"confirmed": True, "replay_path": R.save_replay("C20/read_message", case), "key": "C20/read_message/valid-frame-rejected",
+                            "detail": "frames written by write_message and delivered in %s-byte pieces are not read back: %s" % (chunks, json.dumps(bad)[:300])}
+            return {"confirmed": False, "detail": "native read_message reads back chunk-delivered frames correctly"}
         # replay a hostile frame family natively (allocation-tracking build of the oracle)
         hdr = [model_int(model, x) % 256 for x in b]
         n = model_int(model, N)
